@@ -194,7 +194,10 @@ def exec_op(env: Env, op, dup_identity=False, op_fault=None):
             kw = {kk: env.ev(v) for kk, v in op.get("kw", {}).items()}
             stage = "call"
             with win:
-                j = r.join(item, how) if how is not None else r.join(item)
+                if op.get("via"):
+                    j = getattr(r, op["via"])(item)  # inner_join / left_join / ... convenience entry points
+                else:
+                    j = r.join(item, how) if how is not None else r.join(item)
                 res = getattr(j, op["fin"])(*a, **kw)
             if res is r and lib.state(r).get("immutable", True) is False:
                 return MutableAlias(op["r"])
